@@ -1,6 +1,7 @@
 import Brax.Gen.Math
 import Brax.Lemmas.Real
 import Brax.Lemmas.Norm
+import Brax.Lemmas.C09Laws
 import Mathlib.Tactic.Ring
 import Mathlib.Tactic.FieldSimp
 import Mathlib.Tactic.LinearCombination
@@ -747,5 +748,582 @@ theorem fromTo_antiparallel_lattice (a b c : ℤ) (ha : |a| ≤ 3) (hb : |b| ≤
   exact_mod_cast this
 
 end FromTo
+
+
+/-! # Law theorems for `euler_to_quat`/`quat_to_euler`, `normalize` (3-vector), `orthogonals`, `inv_3x3`, `signed_angle`
+(helper lemmas that do not mention `Gen.*` are in `Brax/Lemmas/C09Laws.lean`) -/
+
+section Euler
+
+/-- the angle in radians (with the double `3.141592653589793` for π, as the code has it) of a component in degrees -/
+noncomputable def eulerRad (a : ℝ) : ℝ := a * (3141592653589793e-15 : ℝ) / (180 : ℝ)
+
+theorem eulerToQuat_normSq_ring {K : Type} [Field K] [HasTrig K] (v : V3 K) :
+    let h (a : K) : K := a * (3141592653589793e-15 : K) / (360e0 : K)
+    Q4.normSq (Gen.eulerToQuat v)
+      = (HasTrig.cos (h v.x) * HasTrig.cos (h v.x) + HasTrig.sin (h v.x) * HasTrig.sin (h v.x))
+        * (HasTrig.cos (h v.y) * HasTrig.cos (h v.y) + HasTrig.sin (h v.y) * HasTrig.sin (h v.y))
+        * (HasTrig.cos (h v.z) * HasTrig.cos (h v.z) + HasTrig.sin (h v.z) * HasTrig.sin (h v.z)) := by
+  simp only [Gen.eulerToQuat, Q4.normSq]; ring
+
+theorem eulerToQuat_unit (v : V3 ℝ) : Q4.normSq (Gen.eulerToQuat v) = 1 := by
+  have := eulerToQuat_normSq_ring v
+  simp only [HasTrig.sin, HasTrig.cos] at this
+  rw [this]
+  simp only [← sq, Real.cos_sq_add_sin_sq, one_pow]
+
+/-- the five quadratic forms `quat_to_euler` reads off a quaternion, evaluated at `euler_to_quat v`, in the
+half-angle sines and cosines (ring identities, any interpretation of sin/cos) -/
+theorem quatToEuler_args_ring {K : Type} [Field K] [HasTrig K] (v : V3 K) :
+    let h (a : K) : K := a * (3141592653589793e-15 : K) / (360e0 : K)
+    let q := Gen.eulerToQuat v
+    let ca := HasTrig.cos (h v.x); let sa := HasTrig.sin (h v.x)
+    let cb := HasTrig.cos (h v.y); let sb := HasTrig.sin (h v.y)
+    let cc := HasTrig.cos (h v.z); let sc := HasTrig.sin (h v.z)
+    ((-(1 + 1)) * q.y) * q.z + ((1 + 1) * q.w) * q.x = (2 * sa * ca) * (cb * cb - sb * sb) * (cc * cc + sc * sc)
+    ∧ ((q.z * q.z - q.y * q.y) - q.x * q.x) + q.w * q.w = (ca * ca - sa * sa) * (cb * cb - sb * sb) * (cc * cc + sc * sc)
+    ∧ (((1 + 1) * q.x) * q.z) + (((1 + 1) * q.w) * q.y) = (ca * ca + sa * sa) * (2 * sb * cb) * (cc * cc + sc * sc)
+    ∧ ((-(1 + 1)) * q.x) * q.y + ((1 + 1) * q.w) * q.z = (ca * ca + sa * sa) * (cb * cb - sb * sb) * (2 * sc * cc)
+    ∧ ((q.x * q.x + q.w * q.w) - q.z * q.z) - q.y * q.y = (ca * ca + sa * sa) * (cb * cb - sb * sb) * (cc * cc - sc * sc) := by
+  simp only [Gen.eulerToQuat]
+  refine ⟨?_, ?_, ?_, ?_, ?_⟩ <;> ring
+
+theorem quatToEuler_eulerToQuat (v : V3 ℝ)
+    (hx : eulerRad v.x ∈ Set.Ioc (-Real.pi) Real.pi)
+    (hy : -(Real.pi / 2) < eulerRad v.y ∧ eulerRad v.y < Real.pi / 2)
+    (hz : eulerRad v.z ∈ Set.Ioc (-Real.pi) Real.pi) :
+    Gen.quatToEuler (Gen.eulerToQuat v) = ⟨eulerRad v.x, eulerRad v.y, eulerRad v.z⟩ := by
+  obtain ⟨e1, e2, e3, e4, e5⟩ := quatToEuler_args_ring v
+  simp only [HasTrig.sin, HasTrig.cos] at e1 e2 e3 e4 e5
+  have hone : ∀ t : ℝ, Real.cos t * Real.cos t + Real.sin t * Real.sin t = 1 := by
+    intro t; have := Real.cos_sq_add_sin_sq t; rw [sq, sq] at this; exact this
+  have hh : ∀ a : ℝ, eulerRad a = 2 * (a * (3141592653589793e-15 : ℝ) / (360e0 : ℝ)) := by
+    intro a; simp only [eulerRad]; norm_num; ring
+  have hsin : ∀ a : ℝ, Real.sin (eulerRad a) = 2 * Real.sin (a * (3141592653589793e-15 : ℝ) / (360e0 : ℝ))
+      * Real.cos (a * (3141592653589793e-15 : ℝ) / (360e0 : ℝ)) := by
+    intro a; rw [hh, Real.sin_two_mul]
+  have hcos : ∀ a : ℝ, Real.cos (eulerRad a) = Real.cos (a * (3141592653589793e-15 : ℝ) / (360e0 : ℝ))
+      * Real.cos (a * (3141592653589793e-15 : ℝ) / (360e0 : ℝ)) - Real.sin (a * (3141592653589793e-15 : ℝ) / (360e0 : ℝ))
+      * Real.sin (a * (3141592653589793e-15 : ℝ) / (360e0 : ℝ)) := by
+    intro a; rw [hh, Real.cos_two_mul]; linear_combination hone (a * (3141592653589793e-15 : ℝ) / (360e0 : ℝ))
+  have hcy : 0 < Real.cos (eulerRad v.y) := Real.cos_pos_of_mem_Ioo ⟨hy.1, hy.2⟩
+  have hsx := hsin v.x; have hsy := hsin v.y; have hsz := hsin v.z
+  have hcx := hcos v.x; have hcyy := hcos v.y; have hcz := hcos v.z
+  have h1x := hone (v.x * (3141592653589793e-15 : ℝ) / (360e0 : ℝ))
+  have h1y := hone (v.y * (3141592653589793e-15 : ℝ) / (360e0 : ℝ))
+  have h1z := hone (v.z * (3141592653589793e-15 : ℝ) / (360e0 : ℝ))
+  generalize Real.sin (v.x * (3141592653589793e-15 : ℝ) / (360e0 : ℝ)) = sa at *
+  generalize Real.cos (v.x * (3141592653589793e-15 : ℝ) / (360e0 : ℝ)) = ca at *
+  generalize Real.sin (v.y * (3141592653589793e-15 : ℝ) / (360e0 : ℝ)) = sb at *
+  generalize Real.cos (v.y * (3141592653589793e-15 : ℝ) / (360e0 : ℝ)) = cb at *
+  generalize Real.sin (v.z * (3141592653589793e-15 : ℝ) / (360e0 : ℝ)) = sc at *
+  generalize Real.cos (v.z * (3141592653589793e-15 : ℝ) / (360e0 : ℝ)) = cc at *
+  simp only [Gen.quatToEuler]
+  congr 1
+  · convert atan2_scaled (Real.cos (eulerRad v.y)) (eulerRad v.x) hcy hx using 2
+    · rw [hsx, hcyy]; linear_combination e1 + (2 * sa * ca * (cb * cb - sb * sb)) * h1z
+    · rw [hcx, hcyy]; linear_combination e2 + ((ca * ca - sa * sa) * (cb * cb - sb * sb)) * h1z
+  · refine asin_clip_sin _ _ ?_ (le_of_lt hy.1) (le_of_lt hy.2)
+    rw [hsy]; linear_combination e3 + (2 * sb * cb) * h1x + ((ca * ca + sa * sa) * (2 * sb * cb)) * h1z
+  · convert atan2_scaled (Real.cos (eulerRad v.y)) (eulerRad v.z) hcy hz using 2
+    · rw [hsz, hcyy]; linear_combination e4 + ((cb * cb - sb * sb) * (2 * sc * cc)) * h1x
+    · rw [hcz, hcyy]; linear_combination e5 + ((cb * cb - sb * sb) * (cc * cc - sc * sc)) * h1x
+
+/-- non-vacuity of the chart: `(90°, 45°, −90°)` -/
+example : eulerRad 90 ∈ Set.Ioc (-Real.pi) Real.pi ∧ (-(Real.pi / 2) < eulerRad 45 ∧ eulerRad 45 < Real.pi / 2)
+    ∧ eulerRad (-90) ∈ Set.Ioc (-Real.pi) Real.pi := by
+  have h1 := Real.two_le_pi
+  simp only [eulerRad, Set.mem_Ioc]
+  refine ⟨⟨?_, ?_⟩, ⟨?_, ?_⟩, ?_, ?_⟩ <;> norm_num <;> linarith
+
+/-- **gimbal lock** (why the chart is open in `y`): when the middle angle is exactly `π/2` the two `atan2` read
+`atan2 0 0 = 0`, so `x` and `z` are lost -/
+theorem quatToEuler_eulerToQuat_gimbal (v : V3 ℝ) (hy : eulerRad v.y = Real.pi / 2) :
+    Gen.quatToEuler (Gen.eulerToQuat v) = ⟨0, Real.pi / 2, 0⟩ := by
+  obtain ⟨e1, e2, e3, e4, e5⟩ := quatToEuler_args_ring v
+  simp only [HasTrig.sin, HasTrig.cos] at e1 e2 e3 e4 e5
+  have hone : ∀ t : ℝ, Real.cos t * Real.cos t + Real.sin t * Real.sin t = 1 := by
+    intro t; have := Real.cos_sq_add_sin_sq t; rw [sq, sq] at this; exact this
+  have hh : ∀ a : ℝ, eulerRad a = 2 * (a * (3141592653589793e-15 : ℝ) / (360e0 : ℝ)) := by
+    intro a; simp only [eulerRad]; norm_num; ring
+  have hsy : Real.sin (eulerRad v.y) = 2 * Real.sin (v.y * (3141592653589793e-15 : ℝ) / (360e0 : ℝ))
+      * Real.cos (v.y * (3141592653589793e-15 : ℝ) / (360e0 : ℝ)) := by
+    rw [hh, Real.sin_two_mul]
+  have hcy : Real.cos (eulerRad v.y) = Real.cos (v.y * (3141592653589793e-15 : ℝ) / (360e0 : ℝ))
+      * Real.cos (v.y * (3141592653589793e-15 : ℝ) / (360e0 : ℝ)) - Real.sin (v.y * (3141592653589793e-15 : ℝ) / (360e0 : ℝ))
+      * Real.sin (v.y * (3141592653589793e-15 : ℝ) / (360e0 : ℝ)) := by
+    rw [hh, Real.cos_two_mul]; linear_combination hone (v.y * (3141592653589793e-15 : ℝ) / (360e0 : ℝ))
+  rw [hy, Real.sin_pi_div_two] at hsy
+  rw [hy, Real.cos_pi_div_two] at hcy
+  have h1x := hone (v.x * (3141592653589793e-15 : ℝ) / (360e0 : ℝ))
+  have h1z := hone (v.z * (3141592653589793e-15 : ℝ) / (360e0 : ℝ))
+  rw [← hcy] at e1 e2 e4 e5
+  rw [← hsy, h1x, h1z] at e3
+  have harg0 : (HasTrig.atan2 (0 : ℝ) 0 : ℝ) = 0 := by
+    show Complex.arg ⟨0, 0⟩ = 0
+    exact Complex.arg_zero
+  simp only [Gen.quatToEuler]
+  congr 1
+  · convert harg0 using 2
+    · linear_combination e1
+    · linear_combination e2
+  · refine asin_clip_sin _ _ ?_ (by linarith [Real.pi_pos]) (le_refl _)
+    rw [Real.sin_pi_div_two]; linear_combination e3
+  · convert harg0 using 2
+    · linear_combination e4
+    · linear_combination e5
+
+end Euler
+
+section Normalize3
+
+/-- outside the `allclose(x, 0)` ball (here: `|v|² > 1e-15`) `normalize` divides by the Euclidean norm -/
+theorem normalize3_eq (v : V3 ℝ) (h : (1e-15 : ℝ) < V3.dot v v) :
+    Gen.normalize3 v = ⟨v.x / Real.sqrt (V3.dot v v), v.y / Real.sqrt (V3.dot v v), v.z / Real.sqrt (V3.dot v v)⟩ := by
+  simp only [V3.dot] at h ⊢
+  have hpos : 0 < Real.sqrt (v.x * v.x + v.y * v.y + v.z * v.z) := Real.sqrt_pos.mpr (lt_trans (by norm_num) h)
+  have er : eqR (Real.sqrt (v.x * v.x + v.y * v.y + v.z * v.z)) 0 = false := by
+    rw [Bool.eq_false_iff]; intro hc; exact (ne_of_gt hpos) ((eqR_iff _ _).mp hc)
+  simp only [Gen.normalize3, isclose_comp_iff]
+  simp only [allclose3_false _ _ _ h, Bool.false_eq_true, if_false, mul_one,
+    add_zero, sub_zero, HasSqrt.sqrt, er, mul_zero]
+
+end Normalize3
+
+section Orthogonals
+
+theorem anyNonzero_of_unit (a : V3 ℝ) (ha : V3.dot a a = 1) :
+    (((!(eqR a.x 0)) || (!(eqR a.y 0))) || (!(eqR a.z 0))) = true := by
+  by_contra hc
+  simp only [Bool.or_eq_true, Bool.not_eq_true', not_or, Bool.not_eq_false, eqR_iff] at hc
+  obtain ⟨⟨h1, h2⟩, h3⟩ := hc
+  simp only [V3.dot, h1, h2, h3] at ha
+  norm_num at ha
+
+theorem orthogonalsB_shape_y (a : V3 ℝ) (ha : V3.dot a a = 1) (hy : -(5e-1 : ℝ) < a.y ∧ a.y < (5e-1 : ℝ)) :
+    ∃ p q r : ℝ, Gen.orthogonalsB a = Gen.normalize3 ⟨p, q, r⟩
+      ∧ p = -(a.x * a.y) ∧ q = 1 - a.y * a.y ∧ r = -(a.z * a.y) := by
+  have hb : (decide (-(5e-1 : ℝ) < a.y) && decide (a.y < (5e-1 : ℝ))) = true := by simp [hy.1, hy.2]
+  have hb' : (decide (a.y < (5e-1 : ℝ)) && decide (-(5e-1 : ℝ) < a.y)) = true := by simp [hy.1, hy.2]
+  simp only [Gen.orthogonalsB, Gen.normalize3, hb, hb', anyNonzero_of_unit a ha, if_true, mul_one]
+  refine ⟨_, _, _, rfl, ?_, ?_, ?_⟩ <;> ring
+
+theorem orthogonalsB_shape_z (a : V3 ℝ) (ha : V3.dot a a = 1) (hy : ¬ (-(5e-1 : ℝ) < a.y ∧ a.y < (5e-1 : ℝ))) :
+    ∃ p q r : ℝ, Gen.orthogonalsB a = Gen.normalize3 ⟨p, q, r⟩
+      ∧ p = -(a.x * a.z) ∧ q = -(a.y * a.z) ∧ r = 1 - a.z * a.z := by
+  have hb : (decide (-(5e-1 : ℝ) < a.y) && decide (a.y < (5e-1 : ℝ))) = false := by
+    simp only [Bool.and_eq_false_iff, decide_eq_false_iff_not]; tauto
+  have hb' : (decide (a.y < (5e-1 : ℝ)) && decide (-(5e-1 : ℝ) < a.y)) = false := by
+    simp only [Bool.and_eq_false_iff, decide_eq_false_iff_not]; tauto
+  simp only [Gen.orthogonalsB, Gen.normalize3, hb, hb', anyNonzero_of_unit a ha, Bool.false_eq_true, if_false, if_true,
+    mul_one]
+  refine ⟨_, _, _, rfl, ?_, ?_, ?_⟩ <;> ring
+
+/-- the second vector is the cross product of the argument with the first, as in the source -/
+theorem orthogonalsC_eq_cross (a : V3 ℝ) : Gen.orthogonalsC a = V3.cross a (Gen.orthogonalsB a) := by
+  first
+    | rfl
+    | (simp only [Gen.orthogonalsC, Gen.orthogonalsB, V3.cross]; congr 1 <;> ring)
+
+/-- dividing a vector `w ⟂ a` that is not tiny by its norm gives a unit vector `⟂ a` -/
+theorem normalize3_orth (a w : V3 ℝ) (hw : (1e-15 : ℝ) < V3.dot w w) (haw : V3.dot a w = 0) :
+    V3.dot (Gen.normalize3 w) (Gen.normalize3 w) = 1 ∧ V3.dot a (Gen.normalize3 w) = 0 := by
+  have hp : 0 < V3.dot w w := lt_trans (by norm_num) hw
+  rw [normalize3_eq w hw]
+  have hs := Real.mul_self_sqrt (le_of_lt hp)
+  have hne : Real.sqrt (V3.dot w w) ≠ 0 := ne_of_gt (Real.sqrt_pos.mpr hp)
+  generalize Real.sqrt (V3.dot w w) = n at hs hne
+  constructor
+  · have : V3.dot (⟨w.x / n, w.y / n, w.z / n⟩ : V3 ℝ) ⟨w.x / n, w.y / n, w.z / n⟩ = V3.dot w w / (n * n) := by
+      simp only [V3.dot]; field_simp
+    rw [this, ← hs]; exact div_self (mul_ne_zero hne hne)
+  · have : V3.dot a (⟨w.x / n, w.y / n, w.z / n⟩ : V3 ℝ) = V3.dot a w / n := by
+      simp only [V3.dot]; field_simp
+    rw [this, haw, zero_div]
+
+/-- **`orthogonals`, first vector**: for a unit vector `a`, `b` is a unit vector orthogonal to `a`
+(both branches of the `|a.y| < 0.5` switch; the `allclose`/`1e-6` guards of the inlined `normalize` and the
+`jp.any(a)` mask are shown not to fire) -/
+theorem orthogonalsB_spec (a : V3 ℝ) (ha : V3.dot a a = 1) :
+    V3.dot (Gen.orthogonalsB a) (Gen.orthogonalsB a) = 1 ∧ V3.dot a (Gen.orthogonalsB a) = 0 := by
+  have ha' := ha
+  simp only [V3.dot] at ha'
+  by_cases hy : -(5e-1 : ℝ) < a.y ∧ a.y < (5e-1 : ℝ)
+  · obtain ⟨p, q, r, he, hp, hq, hr⟩ := orthogonalsB_shape_y a ha hy
+    rw [he]
+    apply normalize3_orth
+    · simp only [V3.dot, hp, hq, hr]
+      have h1 : a.y * a.y < 1 / 4 := by
+        obtain ⟨h1, h2⟩ := hy; norm_num at h1 h2; nlinarith
+      have : -(a.x * a.y) * -(a.x * a.y) + (1 - a.y * a.y) * (1 - a.y * a.y) + -(a.z * a.y) * -(a.z * a.y)
+          = 1 - a.y * a.y := by linear_combination (a.y * a.y) * ha'
+      rw [this]; norm_num; linarith
+    · simp only [V3.dot, hp, hq, hr]; linear_combination (-a.y) * ha'
+  · obtain ⟨p, q, r, he, hp, hq, hr⟩ := orthogonalsB_shape_z a ha hy
+    rw [he]
+    apply normalize3_orth
+    · simp only [V3.dot, hp, hq, hr]
+      have h1 : 1 / 4 ≤ a.y * a.y := by
+        rcases le_or_gt a.y (-(1 / 2)) with h | h
+        · nlinarith
+        · have h2 : ¬ a.y < 1 / 2 := fun h2 => hy ⟨by norm_num; linarith, by norm_num; linarith⟩
+          nlinarith [not_lt.mp h2]
+      have : -(a.x * a.z) * -(a.x * a.z) + -(a.y * a.z) * -(a.y * a.z) + (1 - a.z * a.z) * (1 - a.z * a.z)
+          = 1 - a.z * a.z := by linear_combination (a.z * a.z) * ha'
+      rw [this]; norm_num; nlinarith [mul_self_nonneg a.x]
+    · simp only [V3.dot, hp, hq, hr]; linear_combination (-a.z) * ha'
+
+/-- **`orthogonals`, second vector**: `c = a × b` is a unit vector orthogonal to `a` and to `b`, and `(a, b, c)` is
+right-handed: `b × c = a` -/
+theorem orthogonalsC_spec (a : V3 ℝ) (ha : V3.dot a a = 1) :
+    V3.dot (Gen.orthogonalsC a) (Gen.orthogonalsC a) = 1 ∧ V3.dot a (Gen.orthogonalsC a) = 0
+      ∧ V3.dot (Gen.orthogonalsB a) (Gen.orthogonalsC a) = 0
+      ∧ V3.cross (Gen.orthogonalsB a) (Gen.orthogonalsC a) = a := by
+  obtain ⟨hb, hab⟩ := orthogonalsB_spec a ha
+  rw [orthogonalsC_eq_cross]
+  generalize Gen.orthogonalsB a = b at hb hab
+  simp only [V3.dot] at ha hb hab
+  simp only [V3.dot, V3.cross]
+  refine ⟨?_, ?_, ?_, ?_⟩
+  · linear_combination (b.x * b.x + b.y * b.y + b.z * b.z) * ha + hb - (a.x * b.x + a.y * b.y + a.z * b.z) * hab
+  · ring
+  · ring
+  · cases a with | mk ax ay az =>
+    simp only at ha hab ⊢
+    congr 1
+    · linear_combination ax * hb - b.x * hab
+    · linear_combination ay * hb - b.y * hab
+    · linear_combination az * hb - b.z * hab
+
+/-- the `jp.any(a)` mask: the zero vector gets `b = c = 0` -/
+theorem orthogonals_zero :
+    Gen.orthogonalsB (⟨0, 0, 0⟩ : V3 ℝ) = ⟨0, 0, 0⟩ ∧ Gen.orthogonalsC (⟨0, 0, 0⟩ : V3 ℝ) = ⟨0, 0, 0⟩ := by
+  have hb : Gen.orthogonalsB (⟨0, 0, 0⟩ : V3 ℝ) = ⟨0, 0, 0⟩ := by
+    have e0 : eqR (0 : ℝ) 0 = true := (eqR_iff _ _).mpr rfl
+    simp only [Gen.orthogonalsB, e0, Bool.not_true, Bool.or_self, Bool.false_eq_true, if_false, mul_zero]
+  refine ⟨hb, ?_⟩
+  rw [orthogonalsC_eq_cross, hb]
+  simp only [V3.cross]; congr 1 <;> ring
+
+example : V3.dot (⟨3 / 5, 4 / 5, 0⟩ : V3 ℝ) ⟨3 / 5, 4 / 5, 0⟩ = 1 := by simp only [V3.dot]; norm_num
+
+end Orthogonals
+
+section Inv3x3
+
+/-- `inv_3x3 m` is the adjugate of `m` divided by `det m + 1e-10`: the pivoted-LU determinant that
+`jp.linalg.det` traces to is the Leibniz determinant, for every real matrix (all pivoting branches, zero pivots
+included) -/
+theorem inv3x3_shape (m : M3 ℝ) : ∃ d a00 a01 a02 a10 a11 a12 a20 a21 a22 : ℝ,
+    Gen.inv3x3 m = ⟨⟨a00 / d, a01 / d, a02 / d⟩, ⟨a10 / d, a11 / d, a12 / d⟩, ⟨a20 / d, a21 / d, a22 / d⟩⟩
+    ∧ d = M3.det m + (1e-10 : ℝ)
+    ∧ a00 = m.r1.y * m.r2.z - m.r1.z * m.r2.y ∧ a01 = m.r0.z * m.r2.y - m.r0.y * m.r2.z
+    ∧ a02 = m.r0.y * m.r1.z - m.r0.z * m.r1.y ∧ a10 = m.r1.z * m.r2.x - m.r1.x * m.r2.z
+    ∧ a11 = m.r0.x * m.r2.z - m.r0.z * m.r2.x ∧ a12 = m.r0.z * m.r1.x - m.r0.x * m.r1.z
+    ∧ a20 = m.r1.x * m.r2.y - m.r1.y * m.r2.x ∧ a21 = m.r0.y * m.r2.x - m.r0.x * m.r2.y
+    ∧ a22 = m.r0.x * m.r1.y - m.r0.y * m.r1.x := by
+  refine ⟨_, _, _, _, _, _, _, _, _, _, rfl, ?_, ?_, ?_, ?_, ?_, ?_, ?_, ?_, ?_, ?_⟩
+  · first
+      | calc _ = luDet3 m.r0.x m.r0.y m.r0.z m.r1.x m.r1.y m.r1.z m.r2.x m.r2.y m.r2.z + (1e-10 : ℝ) := rfl
+          _ = _ := by rw [luDet3_eq]; simp only [M3.det]
+      | calc _ = (1e-10 : ℝ) + luDet3 m.r0.x m.r0.y m.r0.z m.r1.x m.r1.y m.r1.z m.r2.x m.r2.y m.r2.z := rfl
+          _ = _ := by rw [luDet3_eq]; simp only [M3.det]; ring
+  all_goals ring
+
+/-- **`inv_3x3` is the inverse up to the regulariser**: `inv_3x3(m) · m = det m / (det m + 1e-10) · 1`
+(guard: the regularised determinant is not 0, i.e. `det m ≠ −1e-10`) -/
+theorem inv3x3_mul_self (m : M3 ℝ) (h : M3.det m + (1e-10 : ℝ) ≠ 0) :
+    M3.mul (Gen.inv3x3 m) m = M3.smul (M3.det m / (M3.det m + (1e-10 : ℝ))) M3.one := by
+  obtain ⟨d, a00, a01, a02, a10, a11, a12, a20, a21, a22, he, hd, h00, h01, h02, h10, h11, h12, h20, h21, h22⟩ :=
+    inv3x3_shape m
+  rw [he, ← hd]
+  rw [← hd] at h
+  have hdet : M3.det m = m.r0.x * (m.r1.y * m.r2.z - m.r1.z * m.r2.y)
+      - m.r0.y * (m.r1.x * m.r2.z - m.r1.z * m.r2.x) + m.r0.z * (m.r1.x * m.r2.y - m.r1.y * m.r2.x) := rfl
+  rw [hdet]
+  subst h00 h01 h02 h10 h11 h12 h20 h21 h22
+  clear hd he hdet
+  simp only [M3.mul, M3.smul, M3.one, M3.col0, M3.col1, M3.col2, V3.dot, V3.smul]
+  congr 1 <;> congr 1 <;> field_simp <;> ring
+
+theorem self_mul_inv3x3 (m : M3 ℝ) (h : M3.det m + (1e-10 : ℝ) ≠ 0) :
+    M3.mul m (Gen.inv3x3 m) = M3.smul (M3.det m / (M3.det m + (1e-10 : ℝ))) M3.one := by
+  obtain ⟨d, a00, a01, a02, a10, a11, a12, a20, a21, a22, he, hd, h00, h01, h02, h10, h11, h12, h20, h21, h22⟩ :=
+    inv3x3_shape m
+  rw [he, ← hd]
+  rw [← hd] at h
+  have hdet : M3.det m = m.r0.x * (m.r1.y * m.r2.z - m.r1.z * m.r2.y)
+      - m.r0.y * (m.r1.x * m.r2.z - m.r1.z * m.r2.x) + m.r0.z * (m.r1.x * m.r2.y - m.r1.y * m.r2.x) := rfl
+  rw [hdet]
+  subst h00 h01 h02 h10 h11 h12 h20 h21 h22
+  clear hd he hdet
+  simp only [M3.mul, M3.smul, M3.one, M3.col0, M3.col1, M3.col2, V3.dot, V3.smul]
+  congr 1 <;> congr 1 <;> field_simp <;> ring
+
+/-- **finding** — `inv_3x3` is never the exact inverse: because of the `+ 1e-10` in the denominator,
+`inv_3x3(m) · m ≠ 1` for *every* real matrix (the product is `det m / (det m + 1e-10) · 1`) -/
+theorem inv3x3_never_exact (m : M3 ℝ) : M3.mul (Gen.inv3x3 m) m ≠ M3.one := by
+  intro hc
+  by_cases h : M3.det m + (1e-10 : ℝ) = 0
+  · -- the denominator is 0: every entry of `inv_3x3 m` is `_ / 0 = 0`
+    obtain ⟨d, a00, a01, a02, a10, a11, a12, a20, a21, a22, he, hd, -⟩ := inv3x3_shape m
+    have hd0 : d = 0 := hd.trans h
+    rw [he, hd0] at hc
+    simp only [M3.mul, M3.one, M3.col0, V3.dot, div_zero, zero_mul, add_zero, M3.mk.injEq, V3.mk.injEq] at hc
+    exact zero_ne_one hc.1.1
+  · rw [inv3x3_mul_self m h] at hc
+    simp only [M3.smul, M3.one, V3.smul, mul_one, M3.mk.injEq, V3.mk.injEq] at hc
+    have h1 := hc.1.1
+    rw [div_eq_one_iff_eq h] at h1
+    have : (1e-10 : ℝ) = 0 := by linarith
+    norm_num at this
+
+/-- the regulariser is not small for small bodies: for `m = diag(1e-4, 1e-3, 1e-3)` (`det m = 1e-10`)
+`inv_3x3(m) · m = ½ · 1` -/
+theorem inv3x3_half :
+    M3.mul (Gen.inv3x3 ⟨⟨1e-4, 0, 0⟩, ⟨0, 1e-3, 0⟩, ⟨0, 0, 1e-3⟩⟩) (⟨⟨1e-4, 0, 0⟩, ⟨0, 1e-3, 0⟩, ⟨0, 0, 1e-3⟩⟩ : M3 ℝ)
+      = M3.smul (1 / 2) M3.one := by
+  have hdet : M3.det (⟨⟨1e-4, 0, 0⟩, ⟨0, 1e-3, 0⟩, ⟨0, 0, 1e-3⟩⟩ : M3 ℝ) = 1e-10 := by
+    simp only [M3.det]; norm_num
+  rw [inv3x3_mul_self _ (by rw [hdet]; norm_num), hdet]
+  norm_num
+
+/-- the hypothesis of `inv3x3_mul_self` is satisfiable (every matrix with `det ≥ 0`, e.g. the identity) -/
+example : M3.det (M3.one : M3 ℝ) + (1e-10 : ℝ) ≠ 0 := by simp only [M3.det, M3.one]; norm_num
+
+end Inv3x3
+
+section SignedAngle
+
+/-- **`signed_angle` recovers the rotation angle**: for a unit axis `a`, a non-zero reference `p ⟂ a` and
+`θ ∈ (−π, π]`, the signed angle about `a` from `p` to `p` rotated by `quat_rot_axis a θ` is `θ` -/
+theorem signedAngle_rotate (a p : V3 ℝ) (θ : ℝ) (ha : V3.dot a a = 1) (hap : V3.dot a p = 0)
+    (hp : 0 < V3.dot p p) (hθ : θ ∈ Set.Ioc (-Real.pi) Real.pi) :
+    Gen.signedAngle a p (Gen.rotate p (Gen.quatRotAxis a θ)) = θ := by
+  rw [rotate_quatRotAxis a p θ ha]
+  simp only [V3.dot] at ha hap
+  simp only [Gen.signedAngle, V3.smul, V3.add_def, V3.cross]
+  convert atan2_scaled (V3.dot p p) θ hp hθ using 2
+  · simp only [V3.dot]
+    linear_combination (Real.sin θ * (p.x * p.x + p.y * p.y + p.z * p.z)) * ha
+      - (Real.sin θ * (a.x * p.x + a.y * p.y + a.z * p.z)) * hap
+  · simp only [V3.dot]
+    linear_combination ((1 - Real.cos θ) * (a.x * p.x + a.y * p.y + a.z * p.z)) * hap
+
+example : V3.dot (⟨0, 0, 1⟩ : V3 ℝ) ⟨0, 0, 1⟩ = 1 ∧ V3.dot (⟨0, 0, 1⟩ : V3 ℝ) ⟨2, 0, 0⟩ = 0
+    ∧ 0 < V3.dot (⟨2, 0, 0⟩ : V3 ℝ) ⟨2, 0, 0⟩ := by
+  simp only [V3.dot]; norm_num
+
+end SignedAngle
+
+section Field2
+variable {K : Type} [Field K]
+
+/-- the rotation matrix of a quaternion is a proper rotation: determinant `+1` -/
+theorem quatTo3x3_det (q : Q4 K) (h : Q4.normSq q ≠ 0) : M3.det (Gen.quatTo3x3 q) = 1 := by
+  simp only [Gen.quatTo3x3, M3.det, Q4.normSq] at h ⊢
+  set d := q.w * q.w + q.x * q.x + q.y * q.y + q.z * q.z with hd
+  clear_value d
+  field_simp
+  rw [hd]; ring
+
+/-- `mat(q)ᵀ mat(q) = 1` (the other order of `quatTo3x3_orthogonal`) -/
+theorem quatTo3x3_orthogonal_transpose (q : Q4 K) (h : Q4.normSq q ≠ 0) :
+    M3.mul (M3.transpose (Gen.quatTo3x3 q)) (Gen.quatTo3x3 q) = M3.one := by
+  simp only [Gen.quatTo3x3, M3.mul, M3.transpose, M3.col0, M3.col1, M3.col2, V3.dot, M3.one,
+    Q4.normSq] at h ⊢
+  set d := q.w * q.w + q.x * q.x + q.y * q.y + q.z * q.z with hd
+  clear_value d
+  congr 1 <;> congr 1 <;> field_simp <;> rw [hd] <;> ring
+
+end Field2
+
+section EulerInv
+
+/-- the unnormalised rotation matrix `|q|² · mat(q)` of a quaternion, as polynomials -/
+def nmat {K : Type} [Field K] (q : Q4 K) : M3 K :=
+  ⟨⟨q.w * q.w + q.x * q.x - q.y * q.y - q.z * q.z, 2 * (q.x * q.y - q.w * q.z), 2 * (q.x * q.z + q.w * q.y)⟩,
+   ⟨2 * (q.x * q.y + q.w * q.z), q.w * q.w - q.x * q.x + q.y * q.y - q.z * q.z, 2 * (q.y * q.z - q.w * q.x)⟩,
+   ⟨2 * (q.x * q.z - q.w * q.y), 2 * (q.y * q.z + q.w * q.x), q.w * q.w - q.x * q.x - q.y * q.y + q.z * q.z⟩⟩
+
+/-- `rotate v q = nmat q · v` -/
+theorem rotate_eq_nmat {K : Type} [Field K] (v : V3 K) (q : Q4 K) : Gen.rotate v q = M3.mulVec (nmat q) v := by
+  simp only [Gen.rotate, nmat, M3.mulVec, V3.dot]; congr 1 <;> ring
+
+/-- the rotation matrix of `euler_to_quat v` is `Rx · Ry · Rz` (ring identity in the half-angle sines and cosines;
+`A = c² + s²`, `C = c² − s²`, `S = 2sc`) -/
+theorem nmat_eulerToQuat_ring {K : Type} [Field K] [HasTrig K] (v : V3 K) :
+    let h (a : K) : K := a * (3141592653589793e-15 : K) / (360e0 : K)
+    let ca := HasTrig.cos (h v.x); let sa := HasTrig.sin (h v.x)
+    let cb := HasTrig.cos (h v.y); let sb := HasTrig.sin (h v.y)
+    let cc := HasTrig.cos (h v.z); let sc := HasTrig.sin (h v.z)
+    nmat (Gen.eulerToQuat v)
+      = ⟨⟨(ca * ca + sa * sa) * ((cb * cb - sb * sb) * (cc * cc - sc * sc)),
+          -((ca * ca + sa * sa) * ((cb * cb - sb * sb) * (2 * sc * cc))),
+          (ca * ca + sa * sa) * ((2 * sb * cb) * (cc * cc + sc * sc))⟩,
+         ⟨(ca * ca - sa * sa) * (cb * cb + sb * sb) * (2 * sc * cc) + (2 * sa * ca) * (2 * sb * cb) * (cc * cc - sc * sc),
+          (ca * ca - sa * sa) * (cb * cb + sb * sb) * (cc * cc - sc * sc) - (2 * sa * ca) * (2 * sb * cb) * (2 * sc * cc),
+          -((2 * sa * ca) * (cb * cb - sb * sb) * (cc * cc + sc * sc))⟩,
+         ⟨(2 * sa * ca) * (cb * cb + sb * sb) * (2 * sc * cc) - (ca * ca - sa * sa) * (2 * sb * cb) * (cc * cc - sc * sc),
+          (2 * sa * ca) * (cb * cb + sb * sb) * (cc * cc - sc * sc) + (ca * ca - sa * sa) * (2 * sb * cb) * (2 * sc * cc),
+          (ca * ca - sa * sa) * (cb * cb - sb * sb) * (cc * cc + sc * sc)⟩⟩ := by
+  simp only [Gen.eulerToQuat, nmat]
+  congr 1 <;> congr 1 <;> ring
+
+/-- `4 (p·q)² = |p|²|q|² + Σ nmat(p)ᵢⱼ nmat(q)ᵢⱼ` -/
+theorem nmat_trace {K : Type} [Field K] (p q : Q4 K) :
+    4 * (p.w * q.w + p.x * q.x + p.y * q.y + p.z * q.z) * (p.w * q.w + p.x * q.x + p.y * q.y + p.z * q.z)
+      = Q4.normSq p * Q4.normSq q + (V3.dot (nmat p).r0 (nmat q).r0 + V3.dot (nmat p).r1 (nmat q).r1
+          + V3.dot (nmat p).r2 (nmat q).r2) := by
+  simp only [nmat, V3.dot, Q4.normSq]; ring
+
+/-- unit quaternions with the same rotation matrix are equal up to sign -/
+theorem eq_or_neg_of_nmat_eq (p q : Q4 ℝ) (hp : Q4.normSq p = 1) (hq : Q4.normSq q = 1) (h : nmat p = nmat q) :
+    p = q ∨ p = ⟨-q.w, -q.x, -q.y, -q.z⟩ := by
+  have ht := nmat_trace p q
+  rw [h, hp, hq] at ht
+  have hsum : V3.dot (nmat q).r0 (nmat q).r0 + V3.dot (nmat q).r1 (nmat q).r1 + V3.dot (nmat q).r2 (nmat q).r2
+      = 3 * (Q4.normSq q * Q4.normSq q) := by
+    simp only [nmat, V3.dot, Q4.normSq]; ring
+  rw [hsum, hq] at ht
+  clear hsum h
+  have hd2 : ((p.w * q.w + p.x * q.x + p.y * q.y + p.z * q.z) - 1)
+      * ((p.w * q.w + p.x * q.x + p.y * q.y + p.z * q.z) + 1) = 0 := by linear_combination (1 / 4 : ℝ) * ht
+  clear ht
+  simp only [Q4.normSq] at hp hq
+  rcases mul_eq_zero.mp hd2 with h1 | h1
+  · left
+    obtain ⟨e1, e2, e3, e4⟩ := four_sq_zero (p.w - q.w) (p.x - q.x) (p.y - q.y) (p.z - q.z)
+      (by linear_combination hp + hq - 2 * h1)
+    cases p; cases q; simp only [Q4.mk.injEq] at *
+    exact ⟨by linarith, by linarith, by linarith, by linarith⟩
+  · right
+    obtain ⟨e1, e2, e3, e4⟩ := four_sq_zero (p.w + q.w) (p.x + q.x) (p.y + q.y) (p.z + q.z)
+      (by linear_combination hp + hq + 2 * h1)
+    cases p; cases q; simp only [Q4.mk.injEq] at *
+    exact ⟨by linarith, by linarith, by linarith, by linarith⟩
+
+/-- cofactor identities of `nmat q` (a scaled rotation matrix): the four entries `quat_to_euler` does not read are
+determined by the five it reads -/
+theorem nmat_cofactor {K : Type} [Field K] (q : Q4 K) :
+    Q4.normSq q * ((nmat q).r2.z * -(nmat q).r0.y) + (nmat q).r0.z * (-(nmat q).r1.z * (nmat q).r0.x)
+        = (Q4.normSq q * Q4.normSq q - (nmat q).r0.z * (nmat q).r0.z) * (nmat q).r1.x
+    ∧ Q4.normSq q * ((nmat q).r2.z * (nmat q).r0.x) - (nmat q).r0.z * (-(nmat q).r1.z * -(nmat q).r0.y)
+        = (Q4.normSq q * Q4.normSq q - (nmat q).r0.z * (nmat q).r0.z) * (nmat q).r1.y
+    ∧ Q4.normSq q * (-(nmat q).r1.z * -(nmat q).r0.y) - (nmat q).r0.z * ((nmat q).r2.z * (nmat q).r0.x)
+        = (Q4.normSq q * Q4.normSq q - (nmat q).r0.z * (nmat q).r0.z) * (nmat q).r2.x
+    ∧ Q4.normSq q * (-(nmat q).r1.z * (nmat q).r0.x) + (nmat q).r0.z * ((nmat q).r2.z * -(nmat q).r0.y)
+        = (Q4.normSq q * Q4.normSq q - (nmat q).r0.z * (nmat q).r0.z) * (nmat q).r2.y := by
+  simp only [nmat, Q4.normSq]
+  refine ⟨?_, ?_, ?_, ?_⟩ <;> ring
+
+/-- what `quat_to_euler` reads off the quaternion: three entries of the last column and two of the first row of
+`nmat q` -/
+theorem quatToEuler_shape (q : Q4 ℝ) : ∃ n1 d1 t n3 d3 : ℝ,
+    Gen.quatToEuler q = ⟨HasTrig.atan2 n1 d1,
+        HasTrig.asin (if (decide (1 < (if decide ((-1 : ℝ) < t) then t else -1))) then 1
+          else (if decide ((-1 : ℝ) < t) then t else -1)),
+        HasTrig.atan2 n3 d3⟩
+    ∧ n1 = -(nmat q).r1.z ∧ d1 = (nmat q).r2.z ∧ t = (nmat q).r0.z ∧ n3 = -(nmat q).r0.y ∧ d3 = (nmat q).r0.x := by
+  refine ⟨_, _, _, _, _, rfl, ?_, ?_, ?_, ?_, ?_⟩ <;> simp only [nmat] <;> ring
+
+/-- radians → degrees with the double `3.141592653589793` for π (inverse of `eulerRad`) -/
+noncomputable def eulerDeg (r : ℝ) : ℝ := r * 180 / (3141592653589793e-15 : ℝ)
+
+theorem eulerRad_eulerDeg (r : ℝ) : eulerRad (eulerDeg r) = r := by
+  simp only [eulerRad, eulerDeg]; norm_num
+
+/-- **`euler_to_quat ∘ quat_to_euler = ± id`** on unit quaternions away from gimbal lock (`|2(xz + wy)| < 1`):
+converting the Euler angles (radians → degrees) back gives `q` or `−q`, i.e. the same rotation -/
+theorem eulerToQuat_quatToEuler (q : Q4 ℝ) (hq : Q4.normSq q = 1)
+    (hs1 : -1 < 2 * (q.x * q.z + q.w * q.y)) (hs2 : 2 * (q.x * q.z + q.w * q.y) < 1) :
+    let e := Gen.quatToEuler q
+    let p := Gen.eulerToQuat ⟨eulerDeg e.x, eulerDeg e.y, eulerDeg e.z⟩
+    p = q ∨ p = ⟨-q.w, -q.x, -q.y, -q.z⟩ := by
+  intro e p
+  apply eq_or_neg_of_nmat_eq p q (eulerToQuat_unit _) hq
+  obtain ⟨n1, d1, t, n3, d3, he, hn1, hd1, ht, hn3, hd3⟩ := quatToEuler_shape q
+  have hp : p = Gen.eulerToQuat ⟨eulerDeg (Gen.quatToEuler q).x, eulerDeg (Gen.quatToEuler q).y,
+      eulerDeg (Gen.quatToEuler q).z⟩ := rfl
+  rw [hp, he]
+  simp only []
+  have hts : t = 2 * (q.x * q.z + q.w * q.y) := by rw [ht]; simp only [nmat]
+  rw [← hts] at hs1 hs2
+  rw [asin_clip_id t hs1 hs2]
+  -- ρ = cos Y
+  have h1t : 0 < 1 - t * t := by nlinarith
+  set ρ := Real.sqrt (1 - t * t) with hρ
+  have hρpos : 0 < ρ := Real.sqrt_pos.mpr h1t
+  have hρρ : ρ * ρ = 1 - t * t := Real.mul_self_sqrt h1t.le
+  have hn := hq
+  simp only [Q4.normSq] at hn
+  have hc := nmat_cofactor q
+  rw [← hn1, ← hd1, ← ht, ← hn3, ← hd3, hq] at hc
+  have hq9 : nmat q = ⟨⟨d3, -n3, t⟩, ⟨(nmat q).r1.x, (nmat q).r1.y, -n1⟩, ⟨(nmat q).r2.x, (nmat q).r2.y, d1⟩⟩ := by
+    rw [hn3, hd3, ht, hn1, hd1, neg_neg, neg_neg]
+  simp only [nmat] at hn1 hd1 ht hn3 hd3
+  have hcol : d1 * d1 + n1 * n1 = ρ * ρ := by
+    rw [hρρ, hd1, hn1, ht]
+    linear_combination (q.w * q.w + q.x * q.x + q.y * q.y + q.z * q.z + 1) * hn
+  have hrow : d3 * d3 + n3 * n3 = ρ * ρ := by
+    rw [hρρ, hd3, hn3, ht]
+    linear_combination (q.w * q.w + q.x * q.x + q.y * q.y + q.z * q.z + 1) * hn
+  obtain ⟨hcX, hsX⟩ := cos_sin_atan2 n1 d1 ρ hρpos hcol
+  obtain ⟨hcZ, hsZ⟩ := cos_sin_atan2 n3 d3 ρ hρpos hrow
+  have hsY : Real.sin (Real.arcsin t) = t := Real.sin_arcsin hs1.le hs2.le
+  have hcY : Real.cos (Real.arcsin t) = ρ := by rw [Real.cos_arcsin, hρ, sq]
+  have hhalf : ∀ r : ℝ, eulerDeg r * (3141592653589793e-15 : ℝ) / (360e0 : ℝ) = r / 2 := by
+    intro r; simp only [eulerDeg]; norm_num; ring
+  have dbl : ∀ θ : ℝ, Real.cos (θ / 2) * Real.cos (θ / 2) + Real.sin (θ / 2) * Real.sin (θ / 2) = 1
+      ∧ Real.cos (θ / 2) * Real.cos (θ / 2) - Real.sin (θ / 2) * Real.sin (θ / 2) = Real.cos θ
+      ∧ 2 * Real.sin (θ / 2) * Real.cos (θ / 2) = Real.sin θ := by
+    intro θ
+    have h1 := Real.cos_sq_add_sin_sq (θ / 2)
+    have h2 := Real.cos_two_mul (θ / 2)
+    have h3 := Real.sin_two_mul (θ / 2)
+    rw [show 2 * (θ / 2) = θ by ring] at h2 h3
+    refine ⟨by linear_combination h1, by linear_combination -h1 - h2, by linear_combination -h3⟩
+  obtain ⟨aX, cX, sX⟩ := dbl (HasTrig.atan2 n1 d1 : ℝ)
+  obtain ⟨aY, cY, sY⟩ := dbl (Real.arcsin t)
+  obtain ⟨aZ, cZ, sZ⟩ := dbl (HasTrig.atan2 n3 d3 : ℝ)
+  rw [hcX] at cX; rw [hsX] at sX; rw [hcY] at cY; rw [hsY] at sY; rw [hcZ] at cZ; rw [hsZ] at sZ
+  have hN := nmat_eulerToQuat_ring (⟨eulerDeg (HasTrig.atan2 n1 d1), eulerDeg (Real.arcsin t),
+    eulerDeg (HasTrig.atan2 n3 d3)⟩ : V3 ℝ)
+  simp only [HasTrig.sin, HasTrig.cos, hhalf] at hN
+  simp only [aX, cX, sX, aY, cY, sY, aZ, cZ, sZ] at hN
+  rw [hN]
+  rw [hq9]
+  generalize (nmat q).r1.x = N10 at hc ⊢
+  generalize (nmat q).r1.y = N11 at hc ⊢
+  generalize (nmat q).r2.x = N20 at hc ⊢
+  generalize (nmat q).r2.y = N21 at hc ⊢
+  obtain ⟨c10, c11, c20, c21⟩ := hc
+  have hρne : ρ ≠ 0 := ne_of_gt hρpos
+  congr 1 <;> congr 1
+  · field_simp
+  · field_simp
+  · ring
+  · field_simp; linear_combination c10 - N10 * hρρ
+  · field_simp; linear_combination c11 - N11 * hρρ
+  · field_simp
+  · field_simp; linear_combination c20 - N20 * hρρ
+  · field_simp; linear_combination c21 - N21 * hρρ
+  · field_simp
+
+/-- … hence the Euler angles read off a unit quaternion describe the rotation of that quaternion -/
+theorem rotate_eulerToQuat_quatToEuler (q : Q4 ℝ) (hq : Q4.normSq q = 1)
+    (hs1 : -1 < 2 * (q.x * q.z + q.w * q.y)) (hs2 : 2 * (q.x * q.z + q.w * q.y) < 1) (v : V3 ℝ) :
+    Gen.rotate v (Gen.eulerToQuat ⟨eulerDeg (Gen.quatToEuler q).x, eulerDeg (Gen.quatToEuler q).y,
+      eulerDeg (Gen.quatToEuler q).z⟩) = Gen.rotate v q := by
+  rcases eulerToQuat_quatToEuler q hq hs1 hs2 with h | h
+  · rw [h]
+  · rw [h]; simp only [Gen.rotate]; congr 1 <;> ring
+
+/-- non-vacuity: `(3/5, 4/5, 0, 0)` is a unit quaternion away from gimbal lock -/
+example : Q4.normSq (⟨3 / 5, 4 / 5, 0, 0⟩ : Q4 ℝ) = 1
+    ∧ (-1 : ℝ) < 2 * ((4 / 5 : ℝ) * 0 + (3 / 5) * 0) ∧ 2 * ((4 / 5 : ℝ) * 0 + (3 / 5) * 0) < (1 : ℝ) := by
+  simp only [Q4.normSq]; norm_num
+
+end EulerInv
 
 end Brax.C09
